@@ -236,7 +236,19 @@ func runC13(c *Ctx) {
 			if !ok {
 				continue
 			}
-			bo, ok := iff.Cond.(*ssa.BinOp)
+			cond := iff.Cond
+			for {
+				u, isU := cond.(*ssa.UnOp)
+				if !isU || u.Op != token.NOT {
+					break
+				}
+				cond = u.X
+				// !(a op b) is a negOp(op) b
+				if inner, isBo := cond.(*ssa.BinOp); isBo && negOp(inner.Op) != token.ILLEGAL {
+					cond = &ssa.BinOp{Op: negOp(inner.Op), X: inner.X, Y: inner.Y}
+				}
+			}
+			bo, ok := cond.(*ssa.BinOp)
 			if !ok {
 				continue
 			}
